@@ -20,6 +20,15 @@ def check(pid, tier, args):
     out = os.path.join(vlib.scratch(), "c04")
     os.makedirs(out, exist_ok=True)
     vlib.run([drive, "pipeline", "-out", out, "-tier", tier, "-seed", str(vlib.seed())], timeout=6000)
+    # every table the pipeline uses is built at start-up or on first use: a lighter pass in
+    # processes started under other GOMAXPROCS values (what a table holds may not depend on it)
+    procs = ["3"] if tier == "quick" else ["3", "6", "1", "12"]
+    with open(os.path.join(out, "c04.ndjson"), "a") as f:
+        for k, pr in enumerate(procs):
+            vlib.run([drive, "pipeline", "-out", out, "-tier", "quick", "-light", "-seed", str(vlib.seed() + 1 + k), "-name", "p.ndjson"],
+                     timeout=6000, env=dict(vlib.goenv(), GOMAXPROCS=pr))
+            f.write(open(os.path.join(out, "p.ndjson")).read())
+    run.cov["gomaxprocs"] = ["default"] + procs
     results, rejects, lines = vlib.validate_trace("TracePipeline", "TracePipeline.cfg", os.path.join(out, "c04.ndjson"),
                                                   shards=2, heap="8g", workers=8, timeout=12000,
                                                   extra_data={"spaces.ndjson": os.path.join(out, "spaces.ndjson")})
